@@ -10,6 +10,7 @@
 import json
 import os
 import random
+import re
 import sys
 from concurrent.futures import ThreadPoolExecutor
 
@@ -125,10 +126,76 @@ def part_b(rep, cov, tier):
             rep.add("lex-trace-rejected", labels={"lexer", kind},
                     detail={"text_name": name, "first_unmatched_record": recno},
                     replay={"text": t, "cmd": "vph lex + LexerTrace.tla"})
+    tokenize_tables(rep, cov, texts, res, tier)
     cov["traces_validated_against_impl"] += len(texts) - len(crashed)
     cov["trace_events"] = events
     cov["trace_rejected"] = nbad
     cov["samples"].append({"trace_text": texts[1][0], "first_events": lexcheck.trace_events(texts[1][1], res[1], 1)[:4]})
+
+
+TOKEN_LINE = re.compile(r"^Type: (\w+), Value: '(.*)', At: Ln (\d+),Col (\d+)$", re.S)
+
+
+def tokenize_tables(rep, cov, texts, res, tier):
+    """`ironplcc tokenize <file>` prints one line per token: type, text, line and column.  For every text of the trace
+    corpus the printed table must be the token stream that LexerTrace.tla has just validated (the positions a user sees on
+    the terminal are the positions of the specification)."""
+    wd = vlib.workdir("c05_tokenize")
+    jobs = []
+    step = 1 if tier != "quick" else 2
+    for i, ((name, t), r) in enumerate(zip(texts, res)):
+        if "toks" not in r or i % step:
+            continue
+        if "\r" in t.replace("\r\n", ""):
+            continue      # a lone CR is rewritten by no one, but the table is split on line ends: skipped
+        p = os.path.join(wd, "t%d.st" % i)
+        with open(p, "w", encoding="utf-8", newline="") as f:
+            f.write(t)
+        jobs.append((i, p))
+
+    def run(j):
+        return vlib.run_cli(["tokenize", j[1]], timeout=120)
+
+    with ThreadPoolExecutor(max_workers=vlib.NCPU) as ex:
+        outs = list(ex.map(run, jobs))
+    n = 0
+    for (i, p), o in zip(jobs, outs):
+        name, t = texts[i]
+        want = [(x[0], x[5].replace("\n", "\\n").replace("\r", "\\r"), x[3], x[4]) for x in res[i]["toks"]]
+        out = o["stdout"]
+        # the table ends before "Number of errors" / "OK"
+        body = out.split("\nNumber of errors")[0]
+        if body.endswith("\nOK\n") or body == "OK\n":
+            body = body[:-3]
+        lines = [ln for ln in re.split(r"\n(?=Type: \w+, Value: ')", body.strip("\n")) if ln]
+        got = []
+        bad = None
+        for ln in lines:
+            m = TOKEN_LINE.match(ln)
+            if not m:
+                bad = ln[:80]
+                break
+            got.append((m.group(1), m.group(2), int(m.group(3)), int(m.group(4))))
+        n += 1
+        sig = None
+        if o.get("timeout") or o["rc"] not in (0, 1):
+            sig = "crash"
+        elif bad is not None and want:
+            sig = "unreadable-line"
+        elif len(got) != len(want):
+            sig = "token-count"
+        else:
+            for g, w in zip(got, want):
+                if g != w:
+                    sig = "kind" if g[0] != w[0] else ("text" if g[1] != w[1] else ("line" if g[2] != w[2] else "column"))
+                    break
+        if sig:
+            kind = name.split("#")[-1].rstrip("0123456789") if "#" in name else name.rstrip("0123456789")
+            rep.add("tokenize-table-differs-from-token-stream:%s" % sig, labels={"lexer", "tokenize", kind},
+                    detail={"text_name": name, "printed": got[:5], "expected": want[:5], "unreadable": bad, "rc": o["rc"]},
+                    replay={"text": t, "cmd": "ironplcc tokenize <file>"})
+        os.unlink(p)
+    cov["tokenize_tables_compared"] = n
 
 
 def main():
